@@ -7,7 +7,12 @@ export GOFLAGS=-mod=mod GOPROXY=off GOSUMDB=off GOTOOLCHAIN=local
 pat="${1:-C*}"
 wt=/tmp/repo_mut_$$; snap=/tmp/verif_snap_$$
 git -C /repo worktree add -q --detach $wt HEAD || exit 2
-rsync -a --exclude .git --exclude work --exclude replays /verif/ $snap/
+if [ -n "${VERIF_SNAP_REV:-}" ]; then
+  # checks as they stood at an earlier commit of /verif (baseline of a round of seeded changes)
+  mkdir -p $snap && git -C /verif archive "$VERIF_SNAP_REV" | tar -x -C $snap
+else
+  rsync -a --exclude .git --exclude work --exclude replays /verif/ $snap/
+fi
 trap 'git -C /repo worktree remove --force $wt; rm -rf $snap /tmp/mm_out_$$.txt /tmp/mm_err_$$.txt' EXIT
 out=/verif/seeded/DETECTION.md
 if [ "$pat" = "C*" ]; then
